@@ -70,6 +70,8 @@ def coq_of_recipe(r) -> str:
         return f"({coq_of_recipe(r[1])} * {coq_of_recipe(r[2])})"
     if t == "sdiv":
         return f"({coq_of_recipe(r[1])} / {coq_of_recipe(r[2])})"
+    if t == "ssqrt":
+        return f"(sqrt {coq_of_recipe(r[1])})"
     if t == "dot":
         return f"(dot {coq_of_recipe(r[1])} {coq_of_recipe(r[2])})"
     if t == "mixed":
@@ -111,6 +113,8 @@ def show_recipe(r) -> str:
         return f"{show_recipe(r[1])}*{show_recipe(r[2])}"
     if t == "sdiv":
         return f"({show_recipe(r[1])})/({show_recipe(r[2])})"
+    if t == "ssqrt":
+        return f"sqrt({show_recipe(r[1])})"
     if t == "dot":
         return f"dot({show_recipe(r[1])}, {show_recipe(r[2])})"
     if t == "mixed":
@@ -216,6 +220,17 @@ def v_norm(a):
     return math.sqrt(float(d))
 
 
+def s_sqrt(d):
+    if isinstance(d, Fraction) and d >= 0:
+        n, m = d.numerator, d.denominator
+        rn, rm = math.isqrt(n), math.isqrt(m)
+        if rn * rn == n and rm * rm == m:
+            return Fraction(rn, rm)
+    if float(d) < 0:
+        raise ValueError("square root of a negative number")
+    return math.sqrt(float(d))
+
+
 ZERO3 = (Fraction(0), Fraction(0), Fraction(0))
 
 
@@ -251,6 +266,8 @@ def eval_recipe(r, env: Env):
         return eval_recipe(r[1], env) * eval_recipe(r[2], env)
     if t == "sdiv":
         return eval_recipe(r[1], env) / eval_recipe(r[2], env)
+    if t == "ssqrt":
+        return s_sqrt(eval_recipe(r[1], env))
     if t == "dot":
         return v_dot(eval_recipe(r[1], env), eval_recipe(r[2], env))
     if t == "mixed":
@@ -382,6 +399,8 @@ def build(r, o: Objs, evaluate=True):
         return sympy.Mul(build(r[1], o, evaluate), build(r[2], o, evaluate), **kw)
     if t == "sdiv":
         return sympy.Mul(build(r[1], o, evaluate), sympy.Pow(build(r[2], o, evaluate), -1, **kw), **kw)
+    if t == "ssqrt":
+        return sympy.sqrt(build(r[1], o, evaluate), **kw)
     if t == "dot":
         return V.VectorDot(build(r[1], o, evaluate), build(r[2], o, evaluate), **kw)
     if t == "mixed":
